@@ -1195,7 +1195,9 @@ func main() {
 	}
 
 	// 1. fixed corpus: regression inputs (sign holes, invariant-breaking sums, fee strings) with all operations
-	corpusPairs := [][2]string{{"10", ".-5"}, {"0", ".-5"}, {"1", "+.-5"}, {"1", "-.-5"}, {"10", ".+5"}, {"10", "-.+5"}, {"0", ".-0"},
+	corpusPairs := [][2]string{{"9223372036854.775808", "9223372036854.775808"}, {"18446744073709.551615", "0.000001"}, {"18446744073709551615", "1"},
+		{"18446744073709551616", "18446744073709551615"}, {"4294967295", "1"}, {"4294967296", "4294967296"}, {"9223372036854775807", "9223372036854775809"},
+		{"18446744073709.551616", "18446744073709.551615"}, {"340282366920938463463374607431768211455", "1"}, {"10", ".-5"}, {"0", ".-5"}, {"1", "+.-5"}, {"1", "-.-5"}, {"10", ".+5"}, {"10", "-.+5"}, {"0", ".-0"},
 		{"9999999999999999999999999999.999999", "9999999999999999999999999999.999999"}, {"19999999999999999999999999999.999998", "1000000"},
 		{"0", "0"}, {"2", "1"}, {"0.9999999999999999999999999999999999999", "100"}, {"10", "0.95"}, {"10.05", "0.05"}, {"1", "3"}, {"-0", "0"}, {"0", "-0"}, {"-0", "-0"}}
 	// sign-hole regression strings: parse and all four constructors
